@@ -714,3 +714,43 @@ Proof.
     apply in_or_app. right. apply in_or_app. left. apply in_map_iff. exists v. split; [reflexivity|assumption].
   - unfold eff_chunks. destruct (head c), (nobody_status (status c)); reflexivity.
 Qed.
+
+(* ------------------------------------------------------------------ bodies read from a stream (file_generator) *)
+Lemma file_gen_all : forall reads, forallb nonempty reads = true -> file_gen reads = reads.
+Proof.
+  induction reads as [|r t IH]; intros H; [reflexivity|].
+  cbn [forallb] in H. apply andb_true_iff in H. destruct H as [Hr Ht].
+  cbn [file_gen]. rewrite Hr, IH by assumption. reflexivity.
+Qed.
+
+(* everything read() returned before its first empty result, nothing else, whatever the sizes of the reads *)
+Lemma file_gen_until_empty : forall a b, forallb nonempty a = true -> file_gen (a ++ [] :: b) = a.
+Proof.
+  induction a as [|r t IH]; intros b H; [reflexivity|].
+  cbn [forallb] in H. apply andb_true_iff in H. destruct H as [Hr Ht].
+  cbn [app file_gen]. rewrite Hr, IH by assumption. reflexivity.
+Qed.
+
+Lemma file_gen_nonempty : forall reads, forallb nonempty (file_gen reads) = true.
+Proof.
+  induction reads as [|r t IH]; [reflexivity|]. cbn [file_gen].
+  destruct (nonempty r) eqn:E; [|reflexivity]. cbn [forallb]. rewrite E. exact IH.
+Qed.
+
+(* a source that hands out its data in reads of arbitrary (positive) sizes is delivered completely *)
+Lemma file_gen_src_reads : forall fuel n caps data, (0 < n)%nat -> (length data < fuel)%nat ->
+  concat (file_gen (src_reads fuel n caps data)) = data.
+Proof.
+  induction fuel as [|f IH]; intros n caps data Hn Hf; [inversion Hf|].
+  cbn [src_reads]. destruct data as [|x d]; [reflexivity|].
+  set (cap := match caps with c :: _ => if Nat.eqb c 0 then n else Nat.min c n | [] => n end).
+  assert (Hcap : (0 < cap)%nat).
+  { unfold cap. destruct caps as [|c ?]; [assumption|]. destruct (Nat.eqb c 0) eqn:E; [assumption|].
+    apply PeanoNat.Nat.eqb_neq in E. lia. }
+  destruct cap as [|k] eqn:Ek; [lia|].
+  cbn [firstn skipn file_gen nonempty concat].
+  rewrite IH.
+  - rewrite <- app_comm_cons. rewrite firstn_skipn. reflexivity.
+  - assumption.
+  - simpl in Hf. pose proof (skipn_length k d). lia.
+Qed.
